@@ -9,14 +9,15 @@ VERIF = os.path.dirname(os.path.dirname(os.path.abspath(__file__)))
 REPO = os.environ.get('VERIF_REPO', '/repo')
 
 
-def build(profile='dev'):
+def build(profile='dev', features=()):
     scratch = tempfile.mkdtemp(prefix='fpdec-verif-driver.')
     try:
         os.makedirs(os.path.join(scratch, 'src'))
         shutil.copy(os.path.join(VERIF, 'replay', 'driver', 'src', 'main.rs'), os.path.join(scratch, 'src', 'main.rs'))
         with open(os.path.join(scratch, 'Cargo.toml'), 'w') as f:
             f.write('[package]\nname = "fpdec_replay_driver"\nversion = "0.0.0"\nedition = "2021"\n\n'
-                    '[dependencies]\nfpdec = { path = "%s" }\n\n[workspace]\n\n'
+                    '[dependencies]\nfpdec = { path = "%s" }\nrkyv = { version = "0.7", optional = true, features = ["validation", "strict"] }\n\n'
+                    '[features]\nrkyv = ["fpdec/rkyv", "dep:rkyv"]\n\n[workspace]\n\n'
                     '[profile.release]\noverflow-checks = false\ndebug-assertions = false\nopt-level = 3\n' % REPO)
         lock = os.path.join(REPO, 'Cargo.lock')
         import hashlib
@@ -25,7 +26,14 @@ def build(profile='dev'):
         env['CARGO_TARGET_DIR'] = target
         env['CARGO_NET_OFFLINE'] = 'true'
         env.pop('RUSTUP_TOOLCHAIN', None)
+        lock = os.path.join(REPO, 'Cargo.lock')
+        if os.path.exists(lock):
+            shutil.copy(lock, os.path.join(scratch, 'Cargo.lock'))
         cmd = ['cargo', 'build', '--offline', '-q']
+        if features:
+            cmd += ['--features', ','.join(features)]
+            target += '-' + '-'.join(features)
+            env['CARGO_TARGET_DIR'] = target
         if profile == 'release':
             cmd.append('--release')
         p = subprocess.run(cmd, cwd=scratch, env=env, stdout=subprocess.PIPE, stderr=subprocess.PIPE, text=True)
